@@ -947,6 +947,7 @@ fn sim_case_with(case_seed: u64, rep: &mut Report, wal_path: Option<std::path::P
 }
 
 fn sim_case_flavor(case_seed: u64, rep: &mut Report, wal_path: Option<std::path::PathBuf>, persist: bool) {
+    let case_started = Instant::now();
     let mut rng = Rng::new(case_seed);
     let plan = gen_plan(&mut rng, 3, wal_path.is_none() && !persist);
     let (mut coord, parts) = build_world(&plan);
@@ -1175,6 +1176,14 @@ fn sim_case_flavor(case_seed: u64, rep: &mut Report, wal_path: Option<std::path:
     rep.eval(hash_str(&trace), committed + aborted > 0 && (sim.faults > 0 || n > 1));
     if rep.want_sample() && committed > 0 && aborted > 0 && sim.trace.len() < 60 {
         rep.sample(json!({"mode": "sim", "case_seed": case_seed, "plan": plan_json(&plan), "trace": trace, "decisions": sim.obs.iter().map(|o| format!("{:?}", o.decision())).collect::<Vec<_>>()}));
+    }
+    // The oracle assumes that the participants' key locks (30 s lease) and the 5 s deadline of
+    // restored transactions never run out inside a case. A case normally takes milliseconds; if
+    // the machine stalled it for seconds that assumption is gone and what the shards then show is
+    // legitimate lease-expiry behaviour, not evidence: the case is not judged.
+    if !sim.found.is_empty() && case_started.elapsed() > Duration::from_secs(4) {
+        rep.inconclusive("a simulated schedule took longer than 4 s of wall time (lock leases / restored deadlines may have run out); not judged");
+        return;
     }
     let mut seen = BTreeSet::new();
     // a decision that changed across the restart is the root cause of whatever the shards show
@@ -2302,7 +2311,7 @@ fn main() {
         property: "C03",
         rule: "one evaluation = one complete schedule (sim: seeded message-level schedule over 1 real coordinator, 2-3 real participants, 1-3 transactions, <=4 keys per shard, run to quiescence; threaded: one run of 1-4 transaction threads plus 1-2 chaos threads on shared objects; burst parts: one case = 120-1500 rounds of one barrier-released message race on a participant, judged at quiescence after every round). Distinct by the hash of the executed event trace (sim) / the case seed (threaded); non-trivial if at least one transaction reached a decision and the schedule contained a fault (loss, duplication, rejected vote, retransmission, timeout sweep) or more than one transaction.",
         assumptions: vec![
-            "participant key locks keep their 30 s default expiry, which never fires within a case".into(),
+            "participant key locks keep their 30 s default expiry, which never fires within a case; a simulated schedule that took more than 4 s of wall time (a stalled machine) and shows a violation is counted inconclusive instead of being judged".into(),
             "a timeout event = sleep 1.1 ms + cleanup_timeouts() with prepare_timeout_ms = 0; the list it returns is the observation, the clock is not judged".into(),
             "re-delivery of a commit that was already applied is not judged (the statement is silent); the reference state follows every successful TxParticipant::commit".into(),
             "one case in six also uses typed operations (NodeCreate/NodeDelete/TableInsert) next to Put/Delete on the same storage keys (node:n0, table:tb), i.e. overlapping data under different lock names".into(),
